@@ -9,7 +9,7 @@ ORDER.admit-tracks        : every path that starts the thread also appends a tra
 import ast
 
 from sa.model import AnalysisError, walk_shallow, dotted, norm
-from sa.util import cfg_of, local_defs, shallow_calls, expand_locals
+from sa.util import cfg_of, local_defs, shallow_calls, expand_locals, guarded_by_edge
 
 MUTATORS = {'append', 'appendleft', 'pop', 'popleft', 'clear', 'rotate', 'remove', 'extend', 'extendleft', 'insert'}
 
@@ -27,6 +27,80 @@ def find_post_event(model):
     if len(cands) != 1:
         raise AnalysisError('cannot locate the timed-post routine of ActiveObject (found %d candidates)' % len(cands))
     return cands[0]
+
+
+def resolve_module_names(model, module, e, depth=4):
+    """names bound once at module level are written out (copy)"""
+    import copy
+    e = copy.deepcopy(e)
+
+    class R(ast.NodeTransformer):
+        def visit_Name(self, n):
+            v = model.module_bindings.get((module.name, n.id))
+            if v is not None and isinstance(n.ctx, ast.Load):
+                return copy.deepcopy(v)
+            return n
+    for _ in range(depth):
+        e = R().visit(e)
+    return e
+
+
+def canon_capacity(txt, selfn='self'):
+    for a, b in (('type(%s).' % selfn, selfn + '.'), (selfn + '.__class__.', selfn + '.')):
+        txt = txt.replace(a, b)
+    return txt
+
+
+def same_capacity(run, model, f, track, capacity):
+    """the tracking deque is bounded (maxlen): an append to a full deque silently evicts the oldest record - a source that may still be running and can then no longer
+    be found by cancel_event/cancel_events/stop.  The admission test prevents that only if the limit it compares with is the deque's own bound for *every*
+    object, also of a subclass that overrides the class constant."""
+    run.rule('ADMIT.same-capacity', 'the limit of the admission test is the bound (maxlen) of the tracking deque: the same expression, or the deque\'s maxlen itself')
+    attr = track.split('.', 1)[1]
+    cls = f.owner_class
+    makers = []
+    for k in [cls] + list(model.mro(cls)[1:]) if cls is not None else []:
+        for m in k.methods.values():
+            for n in walk_shallow(m.node):
+                if isinstance(n, ast.Assign) and any(dotted(t) == m.params[0] + '.' + attr for t in n.targets if m.params):
+                    makers.append((m, n))
+    if not makers:
+        raise AnalysisError('where %s is created was not found' % track)
+    cap_txt = canon_capacity(norm(resolve_module_names(model, f.module, capacity)))
+    for m, n in makers:
+        v = n.value
+        if not (isinstance(v, ast.Call) and norm(v.func).split('.')[-1] == 'deque'):
+            raise AnalysisError('%s is not created as a deque (%s)' % (track, norm(n)))
+        ml = next((k.value for k in v.keywords if k.arg == 'maxlen'), v.args[1] if len(v.args) > 1 else None)
+        if ml is None:
+            run.inst('ADMIT.same-capacity', m, '%s is unbounded' % track, True, 'no maxlen: nothing is ever evicted', node=n, obligation=True)
+            continue
+        ml_txt = canon_capacity(norm(resolve_module_names(model, m.module, ml)), m.params[0]).replace(m.params[0] + '.', 'self.')
+        ok = cap_txt == ml_txt or cap_txt in (track + '.maxlen',)
+        run.inst('ADMIT.same-capacity', f, 'admission limit %s == maxlen %s' % (cap_txt, ml_txt), ok,
+                 '' if ok else ('the admission test compares len(%s) with %s, but the deque is created with maxlen=%s: for an object whose two limits differ (a subclass that sets its own '
+                                'QUEUE_SIZE) a source that had to be refused is admitted and its record evicts the oldest one - that source keeps posting and neither cancel_event, '
+                                'cancel_events nor stop() can reach it any more' % (track, cap_txt, ml_txt)), node=n, obligation=True)
+
+
+
+def admission_capacity(model):
+    """(function, tracking deque, capacity expression) of the admission test of the timed-post function, or None when it is not of the form len(self.X) <cmp> LIMIT"""
+    f, tcall = find_post_event(model)
+    g = cfg_of(f)
+    raises = [n for n in g.nodes if n.kind == 'stmt' and isinstance(n.ast, ast.Raise) and n.ast.exc is not None and 'OutOfPostedEventResources' in norm(n.ast.exc)]
+    for n in g.nodes:
+        if n.kind == 'test' and any(guarded_by_edge(g, r_, n, lab_) for r_ in raises for lab_ in ('true', 'false')):
+            x = expand_locals(n.ast, f.node, params=f.params)
+            for c in ast.walk(x):
+                if isinstance(c, ast.Compare) and len(c.ops) == 1 and isinstance(c.ops[0], (ast.Lt, ast.LtE, ast.Gt, ast.GtE, ast.Eq, ast.NotEq)):
+                    for a_, b_ in ((c.left, c.comparators[0]), (c.comparators[0], c.left)):
+                        if isinstance(a_, ast.Call) and isinstance(a_.func, ast.Name) and a_.func.id == 'len' and a_.args:
+                            d = dotted(a_.args[0])
+                            if d and d.startswith('self.'):
+                                return f, d, b_
+    return None
+
 
 
 def check(run, model, tier):
@@ -53,14 +127,20 @@ def check(run, model, tier):
     run.floor('out-of-resources raise sites', len(raises), 1)
     # tracking deque: the deque attribute whose length the admission test reads
     track = None
+    capacity = None
     xtest = {n: expand_locals(n.ast, f.node, params=f.params) for n in g.nodes if n.kind == 'test'}
     for n in g.nodes:
-        if n.kind == 'test':
+        if n.kind == 'test' and any(guarded_by_edge(g, r_, n, lab_) for r_ in raises for lab_ in ('true', 'false')):
             for c in ast.walk(xtest[n]):
-                if isinstance(c, ast.Call) and isinstance(c.func, ast.Name) and c.func.id == 'len' and c.args:
-                    d = dotted(c.args[0])
-                    if d and d.startswith('self.') and 'QUEUE_SIZE' in norm(xtest[n]):
-                        track = d
+                if isinstance(c, ast.Compare) and len(c.ops) == 1 and isinstance(c.ops[0], (ast.Lt, ast.LtE, ast.Gt, ast.GtE, ast.Eq, ast.NotEq)):
+                    for a_, b_ in ((c.left, c.comparators[0]), (c.comparators[0], c.left)):
+                        if isinstance(a_, ast.Call) and isinstance(a_.func, ast.Name) and a_.func.id == 'len' and a_.args:
+                            d = dotted(a_.args[0])
+                            if d and d.startswith('self.'):
+                                track = d
+                                capacity = b_
+    if track is not None and capacity is not None:
+        same_capacity(run, model, f, track, capacity)
     if track is None:
         # the tracking deque located independently: the self attribute that receives the PostedEvent record
         recs = [c for c in shallow_calls(f.node) if isinstance(c.func, ast.Attribute) and c.func.attr in ('append', 'appendleft') and (dotted(c.func.value) or '').startswith('self.')
@@ -68,7 +148,7 @@ def check(run, model, tier):
         if not recs:
             recs = [c for c in shallow_calls(f.node) if isinstance(c.func, ast.Attribute) and c.func.attr in ('append', 'appendleft') and (dotted(c.func.value) or '').startswith('self.')
                     and c.args and isinstance(c.args[0], ast.Name) and any(isinstance(d_, ast.AST) and 'PostedEvent' in norm(d_) for d_ in defs.get(c.args[0].id, []))]
-        captests = [n for n in g.nodes if n.kind == 'test' and 'QUEUE_SIZE' in norm(xtest[n])]
+        captests = [n for n in g.nodes if n.kind == 'test' and any(guarded_by_edge(g, r_, n, lab_) for r_ in raises for lab_ in ('true', 'false'))]
         if recs and captests:
             track = dotted(recs[0].func.value)
             run.rule('ADMIT.capacity', 'the admission test compares the length of the tracking deque itself with its capacity')
@@ -127,7 +207,7 @@ def check(run, model, tier):
         run.inst('ORDER.admit-tracks', f, 'start implies tracked', mn >= 1,
                  'a path starts the timer thread without recording it in the tracking deque: cancel/stop cannot reach it', node=s.ast, obligation=True)
         # the admission test dominates the start
-        tests = [n for n in g.nodes if n.kind == 'test' and 'QUEUE_SIZE' in norm(xtest[n]) and track in norm(xtest[n])]
+        tests = [n for n in g.nodes if n.kind == 'test' and ('len(%s)' % track) in norm(xtest[n]) and any(guarded_by_edge(g, r_, n, lab_) for r_ in raises for lab_ in ('true', 'false'))]
         dom = any(g.dominates(t, s) for t in tests)
         run.inst('ORDER.reject-before-start', f, 'admission test dominates start', dom,
                  'thread.start() is not dominated by the capacity test', node=s.ast, obligation=True)
